@@ -1194,6 +1194,8 @@ func (ex *Exec) run() {
 	}
 	// requires
 	env0 := ex.specEnv(h0)
+	vc.entryEnv = env0
+	vc.entryHeap = h0
 	for _, c := range vc.fc.clauses("requires") {
 		t, err := env0.Bool(c.Expr)
 		if err != nil {
